@@ -31,6 +31,13 @@
      clock      ExpireAll: more than the (common) client TTL passes: completed entries are gone, pending entries are
                 completed later as already expired (lru.Update keeps the smaller pxat computed at Flight time).
 
+     Redis 6    (round 2) Redis6 = TRUE: LazyWrite -- a remembered key changes on the server without a push; the push is
+                owed (lazy) and arrives EMBEDDED in the array reply of the next transaction of the connection that
+                touches the key (redis/redis#8935; RepFrame.emb), or as an ordinary push when a writer touches it first.
+                The reader applies embedded invalidations (Delete + invv) before the Update of the reply.
+     commands   Ids = Keys \X Cmds: several cacheable commands per key are separate entries; an invalidation of the key
+                removes every completed one of them and keeps every pending one.
+
    CancelByKey = TRUE is pipe.go/lru.go/cache.go as they are: Cancel(key, cmd, err) removes whatever flight is pending
    under the identity, not the caller's own flight (DESIGN.md section 7 #16).  FALSE: "cancel only your own flight".
    The Bug* constants re-introduce plausible defects (negative configs).
@@ -55,17 +62,28 @@ CONSTANTS Keys, Cmds, Callers,
           Reduce,         \* "full": the partial-order reduction described at Calm (model checking); "local": only the
                           \* caller-local part of it (trace validation); "none"
           CancelByKey,
-          BugPurgePending, BugSkipFlush, BugReorder, BugCacheFailed, BugCancelNoWake, BugRefill, BugNoClose
+          BugPurgePending, BugSkipFlush, BugReorder, BugCacheFailed, BugCancelNoWake, BugRefill, BugNoClose,
+          Redis6,         \* the server is a Redis 6: the invalidation of a lazily expired key is written INSIDE the array
+                          \* reply of the transaction that touches the key (redis/redis#8935), see LazyWrite
+          BugPurgeStop,       \* store.Delete stops at the first pending entry of a key (completed entries of the key
+                              \* under other commands survive; worst iteration order: the pending entry comes first)
+          BugPendingExpires,  \* Flight treats a pending entry older than the client TTL as an expired value
+          BugSkipEmbedded,    \* an invalidation embedded in a reply is consumed but not applied to the store
+          RaceFlight          \* NewSimpleCacheAdapter as it is: adapter.Flight looks the value up under RLock and registers
+                              \* the flight under Lock, re-reading only the flights map -- a caller delayed between the two
+                              \* registers a new flight (a second request) although a completed, fresh entry exists by then
 
 VARIABLES sver, tracked, sendq, wire, pst, cur, dead,
           live,           \* the server has the (tracking) connection of wire cur; FALSE between a cut and the next dial
+          lazy,           \* Redis 6: keys remembered for the connection that changed (expired) on the server without
+                          \* having been reported yet; the report is embedded in the next reply that touches the key
 
           ent, fl, invv,                                        \* the stores
           pc, op, pos, slot, resp, res, cerr, tocancel, ctx, ncalls, sinv, sdead, cep,   \* callers
           nflush, nexp, nfail, nplain,                          \* budgets
           hist, flags     \* generation configs: the behaviour so far; notable things that happened in it
 
-servv == <<sver, tracked, sendq, wire, pst, cur, dead, live>>
+servv == <<sver, tracked, sendq, wire, pst, cur, dead, live, lazy>>
 storv == <<ent, fl, invv>>
 callv == <<pc, op, pos, slot, resp, res, cerr, tocancel, ctx, ncalls, sinv, sdead, cep>>
 budgv == <<nflush, nexp, nfail, nplain>>
@@ -90,10 +108,13 @@ SelectIdx(s, from, Test(_)) ==
 
 \* ------------------------------------------------------------------------------------------------ records
 FreeRec == [id |-> <<>>, st |-> "free", ver |-> 0, owner |-> 0, gen |-> 0, by |-> 0, bygen |-> 0, dead |-> FALSE, p |-> 0]
-RepFrame(c, g, ids, vers, ok, last) ==
-    [t |-> "rep", c |-> c, gen |-> g, ids |-> ids, vers |-> vers, ok |-> ok, last |-> last, keys |-> {}, w |-> <<>>]
+\* emb: Redis 6 only -- the keys whose invalidation pushes are embedded in the array of this reply, in wire order
+\* (w: the version of each embedded key the push reports)
+RepFrame(c, g, ids, vers, ok, last, emb, w) ==
+    [t |-> "rep", c |-> c, gen |-> g, ids |-> ids, vers |-> vers, ok |-> ok, last |-> last, keys |-> {}, w |-> w, emb |-> emb]
 InvFrame(keys, w) ==
-    [t |-> "inv", c |-> 0, gen |-> 0, ids |-> <<>>, vers |-> <<>>, ok |-> TRUE, last |-> FALSE, keys |-> keys, w |-> w]
+    [t |-> "inv", c |-> 0, gen |-> 0, ids |-> <<>>, vers |-> <<>>, ok |-> TRUE, last |-> FALSE, keys |-> keys, w |-> w,
+     emb |-> <<>>]
 Slot(t, f, ver) == [t |-> t, f |-> f, ver |-> ver]
 Val(id, ver, hit) == [t |-> "val", id |-> id, ver |-> ver, hit |-> hit, e |-> ""]
 ErrR(e) == [t |-> "err", id |-> <<>>, ver |-> 0, hit |-> FALSE, e |-> e]
@@ -109,7 +130,7 @@ LogF(r, S) == /\ hist' = IF AtomicCall THEN Append(hist, r) ELSE hist
 Log(r) == LogF(r, {})
 
 Init == /\ sver = [k \in Keys |-> 0] /\ tracked = {} /\ sendq = <<>> /\ wire = <<>>
-        /\ pst = [p \in Pipes |-> "up"] /\ cur = 1 /\ dead = {} /\ live = TRUE
+        /\ pst = [p \in Pipes |-> "up"] /\ cur = 1 /\ dead = {} /\ live = TRUE /\ lazy = {}
         /\ ent = [p \in Pipes |-> [id \in Ids |-> 0]] /\ fl = [f \in 1..MaxF |-> FreeRec]
         /\ invv = [p \in Pipes |-> [k \in Keys |-> 0]]
         /\ pc = [c \in Callers |-> "idle"] /\ op = [c \in Callers |-> NoOp] /\ pos = [c \in Callers |-> 0]
@@ -126,13 +147,15 @@ StoreOpenP(p) == pst[p] # "closed" \/ BugNoClose
 
 \* ------------------------------------------------------------------------------------------------ callers
 \* position i of the batch ids consults the store of pipe p: lru.Flight / lru.Flights / adapter.Flight
-FlightEffect(c, p, ids, i, e0, f0, s0) ==
+\* race (RaceFlight only): the look-up of this call ran before the completed entry existed, the registration after
+FlightEffect(c, p, ids, i, e0, f0, s0, race) ==
     LET id == ids[i] IN
     IF ~StoreOpenP(p)
     THEN [e |-> e0, f |-> f0, s |-> [s0 EXCEPT ![c] = Append(@, Slot("miss", 0, 0))]]   \* store == nil: miss, no entry
-    ELSE IF e0[p][id] # 0 /\ f0[e0[p][id]].st = "done"
+    ELSE IF e0[p][id] # 0 /\ f0[e0[p][id]].st = "done" /\ ~race
     THEN [e |-> e0, f |-> f0, s |-> [s0 EXCEPT ![c] = Append(@, Slot("hit", 0, f0[e0[p][id]].ver))]]
-    ELSE IF e0[p][id] # 0
+    \* a pending entry is joined however old it is (lru.Flight: v.typ == 0 || ...; adapter: flights[key][cmd] != nil)
+    ELSE IF e0[p][id] # 0 /\ f0[e0[p][id]].st # "done" /\ ~(BugPendingExpires /\ f0[e0[p][id]].dead)
     THEN [e |-> e0, f |-> f0, s |-> [s0 EXCEPT ![c] = Append(@, Slot("wait", e0[p][id], 0))]]
     ELSE LET f == CHOOSE x \in FreeF(e0, s0) : \A y \in FreeF(e0, s0) : x <= y IN
          [e |-> [e0 EXCEPT ![p][id] = f],
@@ -143,7 +166,7 @@ FlightEffect(c, p, ids, i, e0, f0, s0) ==
 RECURSIVE FlightsFrom(_, _, _, _, _, _, _)
 FlightsFrom(c, p, ids, i, e0, f0, s0) ==
     IF i > Len(ids) THEN [e |-> e0, f |-> f0, s |-> s0]
-    ELSE LET r == FlightEffect(c, p, ids, i, e0, f0, s0) IN FlightsFrom(c, p, ids, i + 1, r.e, r.f, r.s)
+    ELSE LET r == FlightEffect(c, p, ids, i, e0, f0, s0, FALSE) IN FlightsFrom(c, p, ids, i + 1, r.e, r.f, r.s)
 
 MissPos(sc) == SelectIdx(sc, 1, LAMBDA i : sc[i].t = "miss")
 MissIds(ids, sc) == [j \in 1..Len(MissPos(sc)) |-> ids[MissPos(sc)[j]]]
@@ -206,7 +229,9 @@ Start(c, o) ==
 
 FlightAt(c) ==
     /\ pc[c] = "flights" /\ pos[c] <= Len(op[c].ids) /\ Calm
-    /\ LET r == FlightEffect(c, cep[c], op[c].ids, pos[c], ent, fl, slot) IN
+    /\ \E race \in {FALSE} \cup (IF RaceFlight /\ ent[cep[c]][op[c].ids[pos[c]]] # 0
+                                       /\ fl[ent[cep[c]][op[c].ids[pos[c]]]].st = "done" THEN {TRUE} ELSE {}) :
+       LET r == FlightEffect(c, cep[c], op[c].ids, pos[c], ent, fl, slot, race) IN
        /\ ent' = r.e /\ slot' = r.s /\ fl' = GC(r.f, r.e, r.s)
     /\ pos' = [pos EXCEPT ![c] = @ + 1]
     /\ UNCHANGED <<servv, invv, pc, op, resp, res, cerr, tocancel, ctx, ncalls, sinv, sdead, cep, budgv, hist, flags>>
@@ -224,7 +249,7 @@ Send(c) ==
        THEN /\ pc' = [pc EXCEPT ![c] = "cancel"] /\ cerr' = [cerr EXCEPT ![c] = "conn"]
             /\ tocancel' = [tocancel EXCEPT ![c] = MissIds(op[c].ids, slot[c])] /\ UNCHANGED sendq
        ELSE /\ pc' = [pc EXCEPT ![c] = "sent"] /\ sendq' = sendq \o u /\ UNCHANGED <<cerr, tocancel>>
-    /\ UNCHANGED <<sver, tracked, wire, pst, cur, dead, live, storv, op, pos, slot, resp, res, ctx, ncalls, sinv, sdead,
+    /\ UNCHANGED <<sver, tracked, wire, pst, cur, dead, live, lazy, storv, op, pos, slot, resp, res, ctx, ncalls, sinv, sdead,
                    cep, budgv, hist, flags>>
 
 \* the caller's context ends (observed by the code at its next select / ctx.Err())
@@ -351,10 +376,20 @@ Return(c) ==
     /\ cerr' = [cerr EXCEPT ![c] = "none"] /\ ctx' = [ctx EXCEPT ![c] = FALSE]
     /\ fl' = GC(fl, ent, [slot EXCEPT ![c] = <<>>])
     /\ Log([a |-> "ret", c |-> c, gen |-> ncalls[c], res |-> res[c]])
-    /\ UNCHANGED <<sver, tracked, sendq, wire, pst, cur, dead, live, ent, invv, tocancel, sinv, sdead, cep, budgv>>
+    /\ UNCHANGED <<sver, tracked, sendq, wire, pst, cur, dead, live, lazy, ent, invv, tocancel, sinv, sdead, cep, budgv>>
 
 \* ------------------------------------------------------------------------------------------------ server
-ExecFrame(u, fail) == RepFrame(u.c, u.gen, u.ids, [j \in 1..Len(u.ids) |-> sver[KeyOf(u.ids[j])]], ~fail, u.last)
+UnitKeys(u) == {KeyOf(u.ids[j]) : j \in 1..Len(u.ids)}
+\* Redis 6: the keys of the unit that are owed an invalidation, in the order the transaction touches them (PTTL of
+\* every key first, in the order of the command).  An aborted transaction executes nothing and touches nothing.
+EmbOf(u, fail, lz) ==
+    IF fail THEN <<>>
+    ELSE LET I == SelectIdx(u.ids, 1, LAMBDA i : KeyOf(u.ids[i]) \in lz /\ \A j \in 1..(i - 1) : KeyOf(u.ids[j]) # KeyOf(u.ids[i]))
+         IN [n \in 1..Len(I) |-> KeyOf(u.ids[I[n]])]
+ExecFrame(u, fail, lz) ==
+    LET emb == EmbOf(u, fail, lz) IN
+    RepFrame(u.c, u.gen, u.ids, [j \in 1..Len(u.ids) |-> sver[KeyOf(u.ids[j])]], ~fail, u.last, emb,
+             IF emb = <<>> THEN <<>> ELSE [k \in Keys |-> IF k \in Range(emb) THEN sver[k] ELSE 0])
 TrackKeys(u, fail) == IF fail \/ Mode = "bcast" THEN {} ELSE {KeyOf(u.ids[j]) : j \in 1..Len(u.ids)}
 
 \* the server executes the next transaction of the connection and queues its reply
@@ -362,7 +397,8 @@ ServerExecF(fail) ==
     /\ ~AtomicCall /\ SrvCalm
     /\ sendq # <<>> /\ pst[cur] = "up" /\ live
     /\ (fail => nfail < MaxFail)
-    /\ wire' = Append(wire, ExecFrame(Head(sendq), fail))
+    /\ wire' = Append(wire, ExecFrame(Head(sendq), fail, lazy))
+    /\ lazy' = lazy \ Range(EmbOf(Head(sendq), fail, lazy))
     /\ tracked' = tracked \cup TrackKeys(Head(sendq), fail)
     /\ nfail' = IF fail THEN nfail + 1 ELSE nfail
     /\ sendq' = Tail(sendq)
@@ -373,10 +409,12 @@ Write(k) ==
     /\ Quiet /\ SrvCalm
     /\ sver[k] < MaxVer
     /\ sver' = [sver EXCEPT ![k] = @ + 1]
-    /\ IF pst[cur] = "up" /\ live /\ (Mode = "bcast" \/ k \in tracked)
+    \* (a key that is owed a report -- lazy -- is reported now: Redis deletes the expired key before it writes)
+    /\ IF pst[cur] = "up" /\ live /\ (Mode = "bcast" \/ k \in tracked \/ k \in lazy)
        THEN /\ wire' = Append(wire, InvFrame({k}, [kk \in Keys |-> IF kk = k THEN sver[k] + 1 ELSE 0]))
             /\ tracked' = tracked \ {k}
        ELSE UNCHANGED <<wire, tracked>>
+    /\ lazy' = lazy \ {k}
     /\ Log([a |-> "write", k |-> k, ver |-> sver[k] + 1])
     /\ UNCHANGED <<sendq, pst, cur, dead, live, storv, callv, budgv>>
 
@@ -387,7 +425,7 @@ Flush ==
     /\ nflush < MaxFlush /\ \A k \in Keys : sver[k] < MaxVer
     /\ sver' = [k \in Keys |-> sver[k] + 1]
     /\ IF pst[cur] = "up" /\ live THEN wire' = Append(wire, InvFrame(Keys, [k \in Keys |-> sver[k] + 1])) ELSE UNCHANGED wire
-    /\ tracked' = {}
+    /\ tracked' = {} /\ lazy' = {}
     /\ nflush' = nflush + 1
     /\ Log([a |-> "flush", vers |-> [k \in Keys |-> sver[k] + 1]])
     /\ UNCHANGED <<sendq, pst, cur, dead, live, storv, callv, nexp, nfail, nplain>>
@@ -395,17 +433,34 @@ Flush ==
 \* OPTOUT only: an uncached read on the same connection is remembered too
 PlainRead(k) ==
     /\ Quiet /\ Calm
-    /\ Mode = "optout" /\ nplain < MaxPlain /\ pst[cur] = "up" /\ live /\ k \notin tracked
+    /\ Mode = "optout" /\ nplain < MaxPlain /\ pst[cur] = "up" /\ live /\ k \notin tracked /\ k \notin lazy
     /\ (AtomicCall => wire = <<>> /\ \A c \in Callers : pc[c] # "sent")     \* the driver must get the reply through
     /\ tracked' = tracked \cup {k} /\ nplain' = nplain + 1
     /\ Log([a |-> "plain", k |-> k])
-    /\ UNCHANGED <<sver, sendq, wire, pst, cur, dead, live, storv, callv, nflush, nexp, nfail>>
+    /\ UNCHANGED <<sver, sendq, wire, pst, cur, dead, live, lazy, storv, callv, nflush, nexp, nfail>>
+
+\* Redis 6 (redis/redis#8935): a key remembered for the connection changes on the server without a push (it expired
+\* and no expiry cycle has visited it yet).  The server reports it when somebody touches the key: a writer (Write:
+\* an ordinary push) or the tracking connection itself -- then the push is written in the middle of the array reply
+\* of the transaction (ExecFrame: emb) and the tail of the array follows as separate messages.  The new version
+\* stands for "whatever the key reads as after the change".
+LazyWrite(k) ==
+    /\ Quiet /\ SrvCalm
+    /\ Redis6 /\ sver[k] < MaxVer /\ pst[cur] = "up" /\ live /\ k \in tracked
+    /\ sver' = [sver EXCEPT ![k] = @ + 1]
+    /\ tracked' = tracked \ {k} /\ lazy' = lazy \cup {k}
+    /\ Log([a |-> "lazywrite", k |-> k, ver |-> sver[k] + 1])
+    /\ UNCHANGED <<sendq, wire, pst, cur, dead, live, storv, callv, budgv>>
 
 \* ------------------------------------------------------------------------------------------------ reader
 \* store.Delete(keys): completed entries of the keys go, pending ones stay
+\* (every command cached under the key: lru.purge walks kc.cache, adapter.del walks flights[key])
+HasPending(e0, p, k) == \E id2 \in Ids : KeyOf(id2) = k /\ e0[p][id2] # 0 /\ fl[e0[p][id2]].st = "pending"
+HasDone(e0, p, k) == \E id2 \in Ids : KeyOf(id2) = k /\ e0[p][id2] # 0 /\ fl[e0[p][id2]].st = "done"
 DeleteKeys(e0, p, keys) ==
     [e0 EXCEPT ![p] = [id \in Ids |-> IF KeyOf(id) \in keys /\ e0[p][id] # 0
-                                         /\ (fl[e0[p][id]].st = "done" \/ BugPurgePending) THEN 0 ELSE e0[p][id]]]
+                                         /\ (fl[e0[p][id]].st = "done" \/ BugPurgePending)
+                                         /\ ~(BugPurgeStop /\ HasPending(e0, p, KeyOf(id))) THEN 0 ELSE e0[p][id]]]
 
 \* store.Update for every identity of a successful unit: completes whatever flight is pending under the identity
 \* (the reply of an abandoned request may therefore complete a newer flight)
@@ -429,15 +484,23 @@ ReadFrame(n) ==
        THEN /\ LET e2 == IF fr.keys = Keys /\ BugSkipFlush THEN ent ELSE DeleteKeys(ent, cur, fr.keys) IN
                  /\ ent' = e2 /\ fl' = GC(fl, e2, slot)
             /\ invv' = [invv EXCEPT ![cur] = [k \in Keys |-> IF k \in fr.keys THEN Max2(invv[cur][k], fr.w[k]) ELSE invv[cur][k]]]
-            /\ Log([a |-> "rinv", keys |-> fr.keys])
+            /\ LogF([a |-> "rinv", keys |-> fr.keys],
+                    IF \E k \in fr.keys : HasPending(ent, cur, k) /\ HasDone(ent, cur, k) THEN {"mixedpurge"} ELSE {})
             /\ UNCHANGED <<pc, resp, cerr, tocancel>>
-       ELSE /\ LET u == UpdateAll(fr, cur, 1, ent, fl) IN
+       ELSE \* Redis 6: the pushes embedded in the array are handled first (handlePush: store.Delete + callback, one per
+            \* push), then the patched reply is processed like any other
+            /\ LET e1 == IF BugSkipEmbedded THEN ent ELSE DeleteKeys(ent, cur, Range(fr.emb))
+                    u == UpdateAll(fr, cur, 1, e1, fl) IN
                  /\ ent' = u.e /\ fl' = GC(u.f, u.e, slot)
-            /\ UNCHANGED invv
+            /\ invv' = IF fr.emb = <<>> THEN invv
+                       ELSE [invv EXCEPT ![cur] = [k \in Keys |-> IF k \in Range(fr.emb) THEN Max2(invv[cur][k], fr.w[k])
+                                                                   ELSE invv[cur][k]]]
             /\ LET late == fr.ok /\ \E j \in 1..Len(fr.ids) :
                                 LET f == ent[cur][fr.ids[j]] IN
                                 f # 0 /\ fl[f].st = "pending" /\ ~(fl[f].owner = fr.c /\ fl[f].gen = fr.gen)
-               IN LogF([a |-> "rrep", c |-> fr.c, ids |-> fr.ids], IF late THEN {"latereply"} ELSE {})
+                   embf == (IF \E k \in Range(fr.emb) : HasDone(ent, cur, k) THEN {"embpurge"} ELSE {})
+                           \cup (IF Len(fr.emb) >= 2 THEN {"emb2"} ELSE {})
+               IN LogF([a |-> "rrep", c |-> fr.c, ids |-> fr.ids, emb |-> fr.emb], (IF late THEN {"latereply"} ELSE {}) \cup embf)
             /\ IF pc[fr.c] = "sent" /\ ncalls[fr.c] = fr.gen
                THEN LET r2 == Append(resp[fr.c], [ids |-> fr.ids, vers |-> fr.vers, ok |-> fr.ok])
                         failed == SelectIdx(r2, 1, LAMBDA i : ~r2[i].ok)
@@ -457,7 +520,7 @@ Reader ==
     /\ wire # <<>> /\ pst[cur] = "up"
     /\ \E n \in {1} \cup (IF BugReorder /\ Len(wire) >= 2 /\ wire[1].t = "rep" /\ wire[2].t = "inv" THEN {2} ELSE {}) :
           ReadFrame(n)
-    /\ UNCHANGED <<sver, tracked, sendq, pst, cur, dead, live, op, pos, slot, res, ctx, ncalls, sinv, sdead, cep, budgv>>
+    /\ UNCHANGED <<sver, tracked, sendq, pst, cur, dead, live, lazy, op, pos, slot, res, ctx, ncalls, sinv, sdead, cep, budgv>>
 
 \* ------------------------------------------------------------------------------------------------ clock, connection
 \* more than the client TTL passes
@@ -476,7 +539,7 @@ ExpireAll ==
 Cut ==
     /\ Quiet /\ Calm
     /\ pst[cur] = "up" /\ cur <= MaxCut
-    /\ pst' = [pst EXCEPT ![cur] = "down"] /\ sendq' = <<>> /\ wire' = <<>> /\ tracked' = {} /\ live' = FALSE
+    /\ pst' = [pst EXCEPT ![cur] = "down"] /\ sendq' = <<>> /\ wire' = <<>> /\ tracked' = {} /\ live' = FALSE /\ lazy' = {}
     /\ Log([a |-> "cut"])
     /\ UNCHANGED <<sver, cur, dead, storv, callv, budgv>>
 
@@ -485,7 +548,7 @@ Dial ==
     /\ ~AtomicCall /\ Calm
     /\ ~live /\ pst[cur] = "up"
     /\ live' = TRUE
-    /\ UNCHANGED <<sver, tracked, sendq, wire, pst, cur, dead, storv, callv, budgv, hist, flags>>
+    /\ UNCHANGED <<sver, tracked, sendq, wire, pst, cur, dead, lazy, storv, callv, budgv, hist, flags>>
 
 \* _background after both loops ended: cache.Close(ErrDoCacheAborted) and onInvalidations(nil)
 CloseStore(p) ==
@@ -496,14 +559,14 @@ CloseStore(p) ==
                 f2 == [f \in 1..MaxF |-> IF fl[f].st = "pending" /\ fl[f].p = p THEN [fl[f] EXCEPT !.st = "closed"] ELSE fl[f]]
             IN ent' = e2 /\ fl' = GC(f2, e2, slot)
     /\ Log([a |-> "close", p |-> p])
-    /\ UNCHANGED <<sver, tracked, sendq, wire, cur, live, invv, callv, budgv>>
+    /\ UNCHANGED <<sver, tracked, sendq, wire, cur, live, lazy, invv, callv, budgv>>
 
 \* pipe._exit runs the close hook the mux installed on the wire: the mux drops the wire, the next call dials a new
 \* one (with an empty store).  This happens before _background closes the store of the wire that broke.
 MuxSwap ==
     /\ pst[cur] # "up" /\ cur <= MaxCut /\ Calm
     /\ cur' = cur + 1 /\ UNCHANGED live
-    /\ UNCHANGED <<sver, tracked, sendq, wire, pst, dead, storv, callv, budgv, hist, flags>>
+    /\ UNCHANGED <<sver, tracked, sendq, wire, pst, dead, lazy, storv, callv, budgv, hist, flags>>
 
 \* C09: requests in flight (sent, reply not yet processed) whose owner still waits for them
 Outstanding(c, id) == /\ pc[c] = "sent" /\ pst[cep[c]] = "up"
@@ -521,26 +584,32 @@ StartA(c, o, fail) ==
     /\ LET p  == cur
            r  == FlightsFrom(c, p, o.ids, 1, ent, fl, [slot EXCEPT ![c] = <<>>])
            u  == Units(c, o, r.s[c])
-           frs == [j \in 1..Len(u) |-> ExecFrame(u[j], fail /\ j = 1)]
+           \* Redis 6: what is still owed when unit j is executed (the earlier units of the call took theirs)
+           lzAt(j) == lazy \ UNION {Range(EmbOf(u[i], fail /\ i = 1, lazy)) : i \in 1..(j - 1)}
+           frs == [j \in 1..Len(u) |-> ExecFrame(u[j], fail /\ j = 1, lzAt(j))]
            trk == UNION {TrackKeys(u[j], fail /\ j = 1) : j \in 1..Len(u)}
        IN /\ ent' = r.e /\ slot' = r.s /\ fl' = GC(r.f, r.e, r.s)
           /\ (fail => Len(u) > 0 /\ nfail < MaxFail /\ pst[p] = "up")
           /\ nfail' = IF fail THEN nfail + 1 ELSE nfail
           /\ IF Len(u) = 0
              THEN /\ pc' = [pc EXCEPT ![c] = "waits"] /\ cerr' = [cerr EXCEPT ![c] = "none"]
-                  /\ tocancel' = [tocancel EXCEPT ![c] = <<>>] /\ UNCHANGED <<wire, tracked>>
+                  /\ tocancel' = [tocancel EXCEPT ![c] = <<>>] /\ UNCHANGED <<wire, tracked, lazy>>
              ELSE IF pst[p] # "up"
              THEN /\ pc' = [pc EXCEPT ![c] = "cancel"] /\ cerr' = [cerr EXCEPT ![c] = "conn"]
-                  /\ tocancel' = [tocancel EXCEPT ![c] = MissIds(o.ids, r.s[c])] /\ UNCHANGED <<wire, tracked>>
+                  /\ tocancel' = [tocancel EXCEPT ![c] = MissIds(o.ids, r.s[c])] /\ UNCHANGED <<wire, tracked, lazy>>
              ELSE /\ pc' = [pc EXCEPT ![c] = "sent"] /\ cerr' = [cerr EXCEPT ![c] = "none"]
                   /\ tocancel' = [tocancel EXCEPT ![c] = <<>>]
                   /\ wire' = wire \o frs /\ tracked' = (IF live THEN tracked ELSE {}) \cup trk
+                  /\ lazy' = lazy \ UNION {Range(frs[j].emb) : j \in 1..Len(u)}
           /\ LogF([a |-> "call", c |-> c, gen |-> ncalls[c], kind |-> o.kind, ids |-> o.ids, fail |-> fail,
                    units |-> IF pst[p] = "up" THEN [j \in 1..Len(u) |-> u[j].ids] ELSE <<>>,
+                   embs |-> IF pst[p] = "up" THEN [j \in 1..Len(u) |-> frs[j].emb] ELSE <<>>,
                    slots |-> [i \in 1..Len(r.s[c]) |-> r.s[c][i].t]],
-                  IF pst[p] = "up" /\ \E j \in 1..Len(u) : \E i \in 1..Len(u[j].ids) : \E c2 \in Callers \ {c} :
+                  (IF pst[p] = "up" /\ \E j \in 1..Len(u) : \E i \in 1..Len(u[j].ids) : \E c2 \in Callers \ {c} :
                                            Outstanding(c2, u[j].ids[i])
-                  THEN {"doublereq"} ELSE {})
+                   THEN {"doublereq"} ELSE {})
+                  \* the call joins a flight that has been pending for longer than the client TTL
+                  \cup (IF \E i \in 1..Len(r.s[c]) : r.s[c][i].t = "wait" /\ fl[r.s[c][i].f].dead THEN {"waitdead"} ELSE {}))
     /\ op' = [op EXCEPT ![c] = o] /\ pos' = [pos EXCEPT ![c] = Len(o.ids) + 1]
     /\ resp' = [resp EXCEPT ![c] = <<>>] /\ res' = [res EXCEPT ![c] = <<>>]
     /\ ctx' = [ctx EXCEPT ![c] = FALSE]
@@ -553,7 +622,7 @@ Next == \/ \E c \in Callers : \/ \E o \in Ops : Start(c, o) \/ \E fail \in BOOLE
                               \/ DoCancel(c) \/ CancelDone(c) \/ WaitAll(c) \/ AsmErr(c) \/ Return(c)
         \/ (\E fail \in BOOLEAN : ServerExecF(fail)) \/ Reader \/ ExpireAll \/ Cut \/ MuxSwap \/ Dial \/ Flush
         \/ \E p \in Pipes : CloseStore(p)
-        \/ \E k \in Keys : Write(k) \/ PlainRead(k)
+        \/ \E k \in Keys : Write(k) \/ PlainRead(k) \/ LazyWrite(k)
 
 Spec == Init /\ [][Next]_vars
 
@@ -607,7 +676,7 @@ PendingHasOwner == \A p \in Pipes : \A id \in Ids : (ent[p][id] # 0 /\ fl[ent[p]
                       /\ pc[o] \in {"flights", "sent", "cancel"}
 
 TypeOK == /\ \A k \in Keys : sver[k] \in 0..MaxVer
-          /\ tracked \subseteq Keys /\ cur \in Pipes
+          /\ tracked \subseteq Keys /\ lazy \subseteq Keys /\ lazy \cap tracked = {} /\ cur \in Pipes
           /\ \A c \in Callers : pc[c] \in {"idle", "flights", "sent", "cancel", "waits", "asm", "ret"}
           /\ \A p \in Pipes : \A id \in Ids :
                 /\ ent[p][id] \in 0..MaxF
